@@ -10,7 +10,7 @@
    readable (files_readable). *)
 From Coq Require Import List ZArith Bool.
 From PyrexModel Require Import IOModel.
-From PyrexProofs Require Import IO_writer IO_reader C11_proofs C12_proofs.
+From PyrexProofs Require Import IO_writer IO_reader C11_proofs C12_proofs IO_filegen IO_analysis.
 Import ListNotations.
 Open Scope Z_scope.
 
@@ -27,7 +27,7 @@ Print Assumptions iter_eq_spec.
 
 (* f[i] for every i in -n..n-1 is event (i mod n) of the sequential pass *)
 Theorem getitem_int_eq_spec : forall st key, readable st -> - n_events st <= key < n_events st ->
-  getitem_int st key = inr (read_obs st (key mod n_events st)).
+  getitem_int st key = inr (read_all_obs st (key mod n_events st)).
 Proof. exact getitem_int_lemma. Qed.
 Print Assumptions getitem_int_eq_spec.
 
@@ -45,17 +45,17 @@ Print Assumptions getitem_slice_eq_spec.
 
 (* the chunk loader itself: what _load_data stores for position c of a chunk is the
    specification read of event ss + c*step, for every table, chunk and step *)
-Theorem load_data_eq_spec : forall st ss se step c, inv st -> 0 <= ss -> ss < se -> se <= n_events st -> 1 <= step ->
+Theorem load_data_eq_spec : forall st ss se step c, inv st -> ana_ok st -> 0 <= ss -> ss < se -> se <= n_events st -> 1 <= step ->
   0 <= c -> ss + c * step < se ->
   load_data st ss se step = inr (chunk_of st ss se step) /\
-  ev_obs st (chunk_of st ss se step) c = read_obs st (ss + c * step).
+  ev_obs st (chunk_of st ss se step) c = read_all_obs st (ss + c * step).
 Proof. intros. split; [apply load_data_ok | apply ev_obs_spec]; assumption. Qed.
 Print Assumptions load_data_eq_spec.
 
 (* the loader's block-and-split formula returns each selected event's own slice for ANY index
    entries that address rows inside the dataset -- no ordering, contiguity or completeness of the
    entries is needed; this covers datasets indexed for only some events in arbitrary order
-   (analysis datasets filled with add_analysis_indices), which are otherwise outside the model *)
+   (analysis datasets filled with add_analysis_indices), see analysis_pass below for their place in the state machine *)
 Theorem load_split_any_index : forall (rws : list row) (ti : list (Z * Z)),
   (forall c, In c ti -> 0 <= fst c /\ 0 <= snd c /\ fst c + snd c <= zlen rws) ->
   let tmp_start := list_min (map fst ti) in
@@ -65,6 +65,37 @@ Theorem load_split_any_index : forall (rws : list row) (ti : list (Z * Z)),
   map (fun c => py_slice rws (fst c) (fst c + snd c)) ti.
 Proof. exact load_formula. Qed.
 Print Assumptions load_split_any_index.
+
+(* ---- analysis datasets as part of the state machine ----
+   read_all_obs st i = (read_obs st i, read_ana st i): the six writer tables and the analysis
+   dataset (rows [start, start+len) of the NEWEST index entry written for event i, Rows [] for an
+   event without entry, NA / Crash when the dataset / its index column does not exist).  All the
+   access-path theorems above are stated for read_all_obs, for every readable file, whose
+   analysis entries (ana_ok) may address any in-bounds rows for any subset of events in any order. *)
+
+(* an analysis pass (create_analysis_dataset, then add_analysis_indices for existing events and
+   rows inside the dataset, in any order, possibly overwriting) keeps the file readable and does
+   not change what the six writer tables read *)
+Theorem analysis_pass : forall st xs, readable st -> ana_wf st -> aops_ok st xs ->
+  readable (ana_apply st xs) /\ n_events (ana_apply st xs) = n_events st /\
+  (forall i, read_obs (ana_apply st xs) i = read_obs st i).
+Proof. exact analysis_pass_lemma. Qed.
+Print Assumptions analysis_pass.
+
+(* add_analysis_indices(name, gi, s, l): event gi now owns rows [s, s+l); every other event keeps
+   its entry *)
+Theorem analysis_index : forall st gi s l i, a_ex (ana st) = true ->
+  acell (ana_step st (AIndex gi s l)) i = (if i =? gi then (s, l) else acell st i) /\
+  a_rows (ana (ana_step st (AIndex gi s l))) = a_rows (ana st) /\
+  a_col (ana (ana_step st (AIndex gi s l))) = true.
+Proof. exact analysis_index_lemma. Qed.
+Print Assumptions analysis_index.
+
+(* every file the writer produces is a valid starting point for an analysis pass, and add()
+   never touches the analysis dataset *)
+Theorem writer_files_accept_analysis : forall o d hd ops, records_particles o = true -> ana_wf (run o d hd ops).
+Proof. exact run_ana_wf. Qed.
+Print Assumptions writer_files_accept_analysis.
 
 (* a file written in several append-mode sessions is the file written in one session *)
 Theorem append_eq_single : forall o d hd ops1 ops2, records_particles o = true ->
@@ -77,14 +108,25 @@ Theorem reopen_recovers_counters : forall st, inv st -> reopen st = st.
 Proof. exact reopen_id. Qed.
 Print Assumptions reopen_recovers_counters.
 
-(* FileGenerator: each chunk it loads is the sequential stream of the current file (the full
-   replay statement C12_proofs.filegen_replays_statement is validated by correspondence only) *)
-Theorem filegen_chunk_partial : forall f k ei, readable f -> 1 <= k -> 0 <= ei < n_events f ->
-  let stop := if n_events f <? ei + k then n_events f else ei + k in
-  getitem_slice f (Some k) (Some ei) (Some stop) None =
-  inr (spec_events f (map (fun j => ei + j) (zseq (stop - ei)))).
-Proof. exact filegen_chunk_lemma. Qed.
-Print Assumptions filegen_chunk_partial.
+(* FileGenerator(files, slice_range=k) followed by create_event() until it raises: for every list
+   of replayable files (readable, particles dataset non-empty) and every k >= 1 the calls return,
+   in order across files and chunks, every stored event's particles together with the running
+   count (thrown total of the completed files + the proportional count inside the current file,
+   exact integer arithmetic), the count after the last event is the sum of the files'
+   total_thrown, and the next call raises StopIteration *)
+Theorem filegen_replays : forall files k, 1 <= k -> Forall gen_ok files -> files <> [] ->
+  exists items, filegen files k = inr (items, Some EStop) /\
+    items = all_items 0 files /\
+    map fst items = flat_map (fun f => map (particle_tags_of f) (zseq (n_events f))) files /\
+    (forall d, snd (last items d) = sumtv files).
+Proof. exact filegen_replays_full. Qed.
+Print Assumptions filegen_replays.
+
+(* files written by any add/reopen history are replayable once an accepted add recorded a particle *)
+Theorem files_replayable : forall o d hd ops, records_particles o = true ->
+  1 <= n_events (run o d hd ops) -> get (rowsOf (run o d hd ops)) P <> [] -> gen_ok (run o d hd ops).
+Proof. exact run_gen_ok. Qed.
+Print Assumptions files_replayable.
 
 (* non-vacuity: a 4-event file written in two sessions with a rejected add in between *)
 Theorem example_file : readable (run ex12_opts 2 true ex12_ops) /\ n_events (run ex12_opts 2 true ex12_ops) = 4.
